@@ -20,8 +20,21 @@ func init() {
 				n = 6000
 			}
 			var out []Case
+			// corpus: messages are built from Error(), never from the cause's fmt output - causes whose
+			// definition carries a Formatter; formats with escaped / stray percent signs without arguments
+			for _, f := range []string{"ctx %d", "100%% sure", "disk 100% full", "plain"} {
+				var a []int
+				if f == "ctx %d" {
+					a = []int{3}
+				}
+				out = append(out, runC02([]PStmt{
+					{T: "define", Kind: "k1", Opts: []POpt{{T: "fmt", ID: 1}, {T: "notrace"}}}, {T: "new", F: 0, Msg: "inner"},
+					{T: "define", Kind: "k2", Opts: []POpt{{T: "notrace"}}}, {T: "wrapf", F: 1, C: ip(0), Format: f, Args: a},
+					{T: "wrap", F: 1, C: ip(0)}, {T: "join", F: 1, Cs: []*int{ip(0), ip(1)}}, {T: "errorf", F: 0, Format: f, Args: a},
+					{T: "errorf", F: 1, Format: f, Args: a}, {T: "wrapf", F: 0, C: ip(2), Format: f, Args: a}}))
+			}
 			for i := 0; i < n; i++ {
-				cfg := p1Cfg{MaxStmts: 6 + i*12/n, Keys: p1Keys, Recover: true}
+				cfg := p1Cfg{MaxStmts: 6 + i*12/n, Keys: p1Keys, Recover: true, Presenters: i%3 == 0}
 				out = append(out, runC02(genProg(r, cfg)))
 			}
 			return out
